@@ -563,6 +563,13 @@ def gen_hier(rng):
     if r < 0.14:
         fault = rng.choice(["reserved", "sig", "alias", "mangled", "owner", "sig"])
     fault_cls = rng.randrange(len(bases))
+    if fault == "owner":
+        shape = rng.choice(["plainmix", "plainmix3"])
+        bases = SHAPES[shape]
+        flags = []
+        for b in bases:
+            flags.append(any(x == "SM" or flags[x] for x in b))
+        fault_cls = flags.index(False)
     first_mode = rng.random()     # <0.8: one designated first state; else free
     sms = [i for i, f in enumerate(flags) if f]
     designated = sms[0] if rng.random() < 0.75 else rng.choice(sms)
